@@ -145,8 +145,16 @@ def compileAtOp (j : Json) : R Json := do
   let ops ← (← getArr j "ops").mapM parseOp
   pure <| jarr ((ops.flatMap (compileAt sb s)).map jCall)
 
+def pureOp (j : Json) : R Json := do
+  let s ← getRat j "s"
+  let tol ← getRat j "tol"
+  let V ← asRatMat (← j.getObjVal? "V")
+  pure <| Json.mkObj [("normalised", Json.bool (pureNormalised detL tol s V)),
+    ("unnormalised", Json.bool (pureUnnormalised detL tol s V)), ("det", jrat (detL (normMat (s * s) V)))]
+
 def handler (op : String) (j : Json) : Option (R Json) :=
   match op with
+  | "hbar.pure" => some (pureOp j)
   | "hbar.compile" => some (compileOp j)
   | "hbar.result" => some (resultOp j)
   | "hbar.state" => some (stateOp j)
